@@ -6,12 +6,12 @@ import TapkeeVerif.Model.Connected
 
 in : `conn N=5 lists=1,2;2,0;0,1;0,4;3,0`
 out: `c=<1|0|oob|fuel> sc=<0|1> r0=<0|1>`      model `isConnected`; oracles `stronglyConnected`, `reachFromZero`
-in : `fn method=.. k=3 check=1 <space> ids=<final lists> tried=<k,..> levels=<k:lists|k:lists..>`
+in : `fn method=.. k=3 check=1 <space> ids=<final lists> kfinal=<k of the returned lists> levels=<k:lists|k:lists..>`
 out: `mtried=.. mk=.. same=<0|1> sc=<0|1> need=<ok|bad@k> exact=<ok|bad@k:i> uni=<0|1>`
      the model recursion `findNeighbors` runs with `search k` := the lists the implementation's own search returned
      for that k (`levels`), so that ties broken differently cannot hide or fake a difference in the recursion/DFS;
      `sc`   : the final graph is strongly connected (what C03 promises);
-     `need` : every rejected k had a graph that is not strongly connected (k raised only when needed);
+     `need` : every level below the returned k has a graph that is not strongly connected (k raised only when needed);
      `exact`: every level's lists are exact k-NN lists (C02's oracle; a failure here is C02's finding, not C03's). -/
 open TapkeeVerif TapkeeVerif.Util TapkeeVerif.Knn TapkeeVerif.KnnIO TapkeeVerif.Connected
 
@@ -47,12 +47,13 @@ def answerFn (fs : List (String × String)) : String :=
   | _, none => "bad-case k"
   | .ok sp, some k =>
     let check := (field? fs "check") != some "0"
-    match (field? fs "ids") >>= parseListsE, (field? fs "tried") >>= parseNats, (field? fs "levels") >>= parseLevels with
-    | some ids, some tried, some levels =>
+    match (field? fs "ids") >>= parseListsE, (field? fs "kfinal") >>= String.toNat?, (field? fs "levels") >>= parseLevels with
+    | some ids, some kfinal, some levels =>
       let search := fun kk => ((levels.find? (·.1 == kk)).map (·.2)).getD []
       let pts := List.range sp.N
       -- oracles on the implementation's observations (independent of the model run)
-      let rejected := levels.filter fun (kk, _) => kk ∈ tried.dropLast
+      -- every level below the returned k must have been rejected: it must lack strong connectivity
+      let rejected := levels.filter fun (kk, _) => kk < kfinal
       let need := match rejected.find? fun (_, g) => stronglyConnected g sp.N with
         | none => "ok"
         | some (kk, _) => s!"bad@{kk}"
@@ -63,7 +64,7 @@ def answerFn (fs : List (String × String)) : String :=
       let orc := s!"sc={b2s (stronglyConnected ids sp.N)} need={need} exact={exact} uni={b2s (uniform ids sp.N)}"
       match findNeighbors search sp.N check (findFuel sp.N) k [] with
       | .ok f =>
-        let same := f.graph == ids && f.tried == tried
+        let same := f.graph == ids && f.k == kfinal
         let mt := String.intercalate "," (f.tried.map toString)
         s!"mtried={mt} mk={f.k} same={b2s same} {orc}"
       | .oob => s!"mtried=oob mk=- same=0 {orc}"
